@@ -81,7 +81,11 @@ func (r *Reader) Close() {
 // readBox reads an ISOBMFF box
 func (r *Reader) readBox() (b box, err error) {
 	// Read box size and box type
-	buf, err := r.peek(16)
+	// the 64-bit size field is only present (and only needed) when size == 1
+	buf, err := r.peek(8)
+	if err == nil && bmffEndian.Uint32(buf[:4]) == 1 {
+		buf, err = r.peek(16)
+	}
 	if err != nil {
 		return b, errors.Wrap(ErrBufLength, "readBox")
 	}
